@@ -88,7 +88,7 @@ pub fn run(ctx: &mut Ctx) {
             self_inclusion(ctx, a);
         }
     }
-    let n = ctx.tier.pick(20_000u64, 1_000_000u64);
+    let n = ctx.tier.n(20_000, 1_000_000);
     for i in 0..n {
         if ctx.take() {
             let mut r = Rng::for_case(ctx.seed, "C10-S", i);
@@ -99,7 +99,7 @@ pub fn run(ctx: &mut Ctx) {
         }
     }
     ctx.stratum("M-multi-A-single-B", false);
-    let n = ctx.tier.pick(60_000u64, 6_000_000u64);
+    let n = ctx.tier.n(60_000, 6_000_000);
     for i in 0..n {
         if ctx.take() {
             let mut r = Rng::for_case(ctx.seed, "C10-M", i);
@@ -111,7 +111,7 @@ pub fn run(ctx: &mut Ctx) {
         }
     }
     ctx.stratum("P-prerelease-and-big-bounds", false);
-    let n = ctx.tier.pick(30_000u64, 3_000_000u64);
+    let n = ctx.tier.n(30_000, 3_000_000);
     for i in 0..n {
         if ctx.take() {
             let mut r = Rng::for_case(ctx.seed, "C10-P", i);
